@@ -218,7 +218,7 @@ class Dendrogram(object):
                 return i + 1
                 # Generate IDs index i. We add one to avoid ID 0
 
-            data_value = data_values[i]
+            data_value = data_values[i].item()
             coord = tuple(indices[i])
 
             if os.environ.get('ASTRODENDRO_VERIF'):
